@@ -1423,3 +1423,19 @@ func (cl *Cluster) SetCollHigh(vbID uint16, cid uint32, high uint64) {
 	vb.CollHigh[cid] = high
 	vb.mu.Unlock()
 }
+
+// SetReplicaNode changes which node holds replica index ix of the vBucket (-1 = unassigned). Call before clients bootstrap, or follow with BumpConfig.
+func (cl *Cluster) SetReplicaNode(vbID uint16, ix int, node int) {
+	cl.mu.Lock()
+	if int(vbID) < len(cl.VBMap) && ix < len(cl.VBMap[vbID]) {
+		cl.VBMap[vbID][ix] = node
+	}
+	cl.mu.Unlock()
+}
+
+// ReplicaNodes returns a copy of the vBucket's map row.
+func (cl *Cluster) ReplicaNodes(vbID uint16) []int {
+	cl.mu.Lock()
+	defer cl.mu.Unlock()
+	return append([]int{}, cl.VBMap[vbID]...)
+}
